@@ -346,3 +346,24 @@ def entry_forwarding(run, rule, only=None):
             run.check(rule, "entry-forwards:" + e.name, not mm, "dispatch wrapper `%s` passes its arguments to %s in the wrong positions: %s" % (e.name, e.handler, "; ".join(mm)), loc=f.loc(t["l"]),
                       detail="%d argument(s) forwarded under the handler's own names" % max(0, len(args) - 1))
     return n
+
+
+def owner_tests(fn):
+    """Atoms `account.is_owned_by(&CONST)` whose false side only fails: [(atom, constant name, account term, error codes)].
+    (The helper check_owner_program is always analysed inlined.)"""
+    from analysis import atoms as A_
+    out = []
+    for at in A_.atoms(fn):
+        t = strip(at.term)
+        neg = False
+        while t[0] == "un" and t[1] == "Not":
+            t = strip(t[2])
+            neg = not neg
+        if t[0] == "call" and t[1].endswith("is_owned_by") and len(t[2]) == 2:
+            k = strip(t[2][1])
+            if k[0] == "const":
+                fails_when_not_owned = at.true_fail if neg else at.false_fail
+                passes_when_owned = not (at.false_fail if neg else at.true_fail)
+                if fails_when_not_owned and passes_when_owned:
+                    out.append((at, (k[2] or "").split("<")[0].rsplit("::", 1)[-1], t[2][0], (at.true_codes if neg else at.false_codes), neg))
+    return out
